@@ -104,3 +104,47 @@ pub fn hdpc_ref(
         set_one(i, i + (Kprime + S));
     }
 }
+
+/// RFC 6330 section 4.4.1.2 — the object is cut into Z = ZL + ZS blocks: the first ZL blocks have KL symbols,
+/// the remaining ZS blocks have KS symbols, T bytes per symbol, contiguous from offset 0.
+pub fn block_offsets_ref(KL: u32, KS: u32, ZL: u32, ZS: u32, T: u16, mut emit: impl FnMut(usize, usize)) {
+    let mut pos = 0;
+    for _ in 0..ZL {
+        let size = KL as usize * T as usize;
+        emit(pos, pos + size);
+        pos += size;
+    }
+    for _ in ZL..(ZL + ZS) {
+        let size = KS as usize * T as usize;
+        emit(pos, pos + size);
+        pos += size;
+    }
+}
+
+/// RFC 6330 section 4.4.1.2 — sub-blocking, encoder side: a block is N = NL + NS sub-blocks; the first NL have
+/// sub-symbols of TL*Al bytes, the other NS of TS*Al bytes; sub-block s stores its K sub-symbols contiguously and the
+/// sub-blocks follow each other; symbol m is the concatenation over s of sub-symbol m of sub-block s.
+pub fn interleave_ref(TL: u32, TS: u32, NL: u32, NS: u32, Al: u8, symbols: &mut [Vec<u8>], data: &[u8]) {
+    let mut offset = 0;
+    for s in 0..(NL + NS) {
+        let bytes = if s < NL { TL as usize * Al as usize } else { TS as usize * Al as usize };
+        for symbol in &mut *symbols {
+            symbol.extend_from_slice(&data[offset..offset + bytes]);
+            offset += bytes;
+        }
+    }
+}
+
+/// decoder side: sub-symbol s of symbol i goes to (start of sub-block s) + bytes_s * i, start of sub-block s being the
+/// sum over earlier sub-blocks of bytes * K.
+pub fn deinterleave_ref(TL: u32, TS: u32, NL: u32, NS: u32, Al: u8, K: u32, result: &mut [u8], symbol: &[u8], i: usize) {
+    let mut symbol_offset = 0;
+    let mut sub_block_offset = 0;
+    for s in 0..(NL + NS) {
+        let bytes = if s < NL { TL as usize * Al as usize } else { TS as usize * Al as usize };
+        let start = sub_block_offset + bytes * i;
+        result[start..start + bytes].copy_from_slice(&symbol[symbol_offset..symbol_offset + bytes]);
+        symbol_offset += bytes;
+        sub_block_offset += bytes * K as usize;
+    }
+}
